@@ -319,6 +319,40 @@ def run_config(rng, ctx, scn, CV, watch, index, tracer):
     except Exception:  # noqa: BLE001
         ctx.oracle_error(f'C02 value {origin}->{target}')
         return
+    # ---- chained conversion: converting the *result* again must still honour the supplied coordinates
+    if index % 5 == 0:
+        t2 = G.TARGETS[(index // 5) % len(G.TARGETS)]
+        v2, nodes2, mode2 = G.decide(origin, t2, scatter, [*present, *AUX, origin])
+        case2 = dict(case, chained_after=target, target=t2, model=v2)
+        try:
+            res2 = scn.convert(res, origin, t2, scatter=scatter_arg)
+            out2 = 'ok'
+        except RuntimeError as e:
+            res2, out2, err2 = None, 'refuse', e
+        except Exception as e:  # noqa: BLE001
+            ctx.violation('wrong_exception', f'second convert raised {type(e).__name__}: {e}', case2, exc=type(e).__name__)
+            out2 = None
+        ctx.event('chained')
+        if out2 is not None and out2 != v2:
+            ctx.violation('chained_outcome', f'converting the result of {origin}->{target} on to {t2}: '
+                          f'{"raised RuntimeError" if out2 == "refuse" else "returned"} but on the original data the '
+                          f'target is {"derivable" if v2 == "ok" else "not derivable"}', case2, target=t2)
+        elif out2 == 'ok' and t2 not in ('hkl_vec', 'h', 'time_at_sample', 'energy_transfer', 'incident_beam',
+                                         'scattered_beam', 'Q_vec', 'two_theta'):
+            try:
+                table2 = G.table_for(origin, t2, scatter, mode2)
+                mv2 = G.evaluate(nodes2, model_values({k: values[k] for k in [*present, *AUX, origin]}), table2, mode2)
+                g2, u2 = get_coord(res2, t2, binned)
+                f2 = si.factor(u2) / si.factor(sc.Unit(UNIT[t2]))
+                e2 = si.relerr(g2.astype(si.LD) * f2, np.broadcast_to(mv2[t2], g2.shape))
+                w2 = float(np.max(e2))
+                ctx.dev('chained.' + t2, w2)
+                if not (w2 <= 1e-9):
+                    ctx.violation('chained_value', f'{t2} obtained by converting the result of {origin}->{target} again '
+                                  f'differs by {w2:.3g} from the formulas applied to the coordinates originally '
+                                  'supplied (a supplied coordinate takes precedence)', case2, target=t2)
+            except Exception:  # noqa: BLE001
+                ctx.oracle_error(f'C02 chained {origin}->{target}->{t2}')
     ctx.event('value')
     ctx.dev(f'value.{target}', worst)
     if not (worst <= 1e-9):
@@ -344,7 +378,7 @@ def plan(tier, seed):
 
 
 def requirements(tier):
-    return {'events': {'convert': 5000, 'value': 1000, 'graph_identity': 1000, 'outer_layout': 100},
+    return {'events': {'convert': 5000, 'value': 1000, 'graph_identity': 1000, 'outer_layout': 100, 'chained': 200},
             'counters': {'model:ok': 1000, 'model:refuse': 1000}}
 
 
